@@ -21,7 +21,12 @@ func (c *base64Padder) pad(buf []byte) (int, error) {
 
 func (c *base64Padder) Read(buf []byte) (int, error) {
 	n, err := c.Reader.Read(buf)
-	c.count += n
+	// line breaks are skipped by the base64 decoder, so they must not count towards the padding
+	for _, b := range buf[:n] {
+		if b != '\n' && b != '\r' {
+			c.count++
+		}
+	}
 
 	if err == io.EOF && c.count%4 != 0 {
 		if n > 0 {
